@@ -1,0 +1,40 @@
+//go:build verif
+
+package bchutil
+
+// Ghost lemma functions for the deductive verifier in /verif. They are ordinary Go, compiled only
+// with the verif build tag and never called: govc executes them symbolically (every input is
+// arbitrary) and proves each verifAssert.
+
+func verifAssert(b bool) {}
+func verifAssume(b bool) {}
+
+// lemmaPackUnpack20: packing a 160-bit hash of either type yields 34 five-bit symbols, and
+// regrouping those symbols gives back the version byte (type<<3, size code 0) and the hash.
+func lemmaPackUnpack20(hash [20]byte, t AddressType) {
+	verifAssume(t == AddrTypePayToPubKeyHash || t == AddrTypePayToScriptHash)
+	packed, err := packAddressData(t, hash[:])
+	verifAssert(err == nil && len(packed) == 34)
+	for i := 0; i < 34; i++ {
+		verifAssert(packed[i] < 32)
+	}
+	data, err2 := convertBits(packed, 5, 8, false)
+	verifAssert(err2 == nil && len(data) == 21)
+	verifAssert(data[0] == byte(t)<<3)
+	for i := 0; i < 20; i++ {
+		verifAssert(data[1+i] == hash[i])
+	}
+}
+
+// lemmaPackUnpack32: the same round trip for 256-bit hashes (53 symbols, size code 3).
+func lemmaPackUnpack32(hash [32]byte, t AddressType) {
+	verifAssume(t == AddrTypePayToPubKeyHash || t == AddrTypePayToScriptHash)
+	packed, err := packAddressData(t, hash[:])
+	verifAssert(err == nil && len(packed) == 53)
+	data, err2 := convertBits(packed, 5, 8, false)
+	verifAssert(err2 == nil && len(data) == 33)
+	verifAssert(data[0] == byte(t)<<3|3)
+	for i := 0; i < 32; i++ {
+		verifAssert(data[1+i] == hash[i])
+	}
+}
